@@ -34,29 +34,23 @@ def parts(ob, n, tiers=('quick', 'thorough')):
     return out
 
 
+def tiered(make, nq, nt):
+    """the same partitioned obligation with nq parts in the quick tier and nt in the thorough tier"""
+    out = []
+    for d in parts(make(), nq):
+        d['quick_only'] = True
+        out.append(d)
+    for d in parts(make(), nt):
+        d['thorough_only'] = True
+        d['name'] = d['name'].replace('[', '-t[')
+        if d.get('twin_of'):
+            d['twin_of'] = d['twin_of'].replace('[', '-t[')
+        out.append(d)
+    return out
+
+
 TRUST = ['CrossHair 0.0.110 (symbolic execution of CPython bytecode semantics)', 'z3 5.1.0 (python wheel)',
          'CPython 3.12.1', 'the stub set listed under assumptions']
-
-SPECS['C11'] = dict(
-    level='other',
-    explanation='Solver-based: CrossHair executes the real billiard.common.restart_state.step symbolically over a bounded '
-                'sequence of calls with symbolic instants, budget, window and ack positions and compares every step with a '
-                'ghost-history oracle; z3 proves one inductive step of the translated transition for histories of any length.',
-    functions=['billiard.common.restart_state.step', 'billiard.common.restart_state.__init__'],
-    bounds={'quick': 'steps=5, 1<=maxR<=3, maxT>=1 unbounded int, instants unbounded non-decreasing ints',
-            'thorough': 'steps=7, 1<=maxR<=4'},
-    outside=['floating-point rounding of instants', 'monotonic()==0 (T falsy)'],
-    assumptions=['time is an integer tick count inside CrossHair; the real-valued kernel is re-proved by the E3 lemma',
-                 'monotonic() > 0 (Linux CLOCK_MONOTONIC is time since boot)'],
-    trusted_base=TRUST,
-    obligations=[
-        ch('restart-bounded', 'harness.c11', 'h_restart', 'real step() vs ghost-history oracle, symbolic times/budget/window/acks',
-           timeout=(150, 1200), quick_only=True),
-        twin('restart-bounded', 'harness.c11', 'h_restart_twin', 'a run in which RestartFreqExceeded is raised exists', quick_only=True),
-    ] + parts(ch('restart-bounded-t', 'harness.c11', 'h_restart', 'same, 6 steps, split on the first three ack flags',
-                 timeout=(150, 1500), thorough_only=True), 8)
-      + parts(twin('restart-bounded-t', 'harness.c11', 'h_restart_twin', 'a raising run exists in this part', thorough_only=True), 8),
-)
 
 NOT_APPLICABLE = {
     'C15': 'every clause but isolation lives in ctypes/mmap/the kernel: a Python-level symbolic executor realises every value at the '
@@ -85,6 +79,41 @@ POOL_ASSUME = [
     'a worker dies only mid-task or between jobs',
     'pipes deliver whole messages in FIFO order (C13 owns framing)',
 ]
+
+SPECS['C11'] = dict(
+    level='other',
+    explanation='Solver-based: (a) z3 proves ONE inductive step of restart_state.step, translated from its current source (AST -> SMT over the '
+                'reals with explicit None flags), against a ghost-history oracle of the statement: raise iff the budget of the open window is '
+                'used up, and the invariant (R = admissions since the window opened or the last reset, T = opening instant) is preserved - '
+                'histories of any length, any budget >= 1, any window > 0; (b) CrossHair runs the real step() over bounded sequences with symbolic '
+                'instants, budget, window and ack positions against the same oracle written over the history; (c) CrossHair runs the real '
+                'supervision code in the stubbed process world: the limiter is consulted exactly once per abnormal exit and never for the '
+                'clean/recycle statuses, before forking; a raise prevents the fork; a job acceptance resets the count; Supervisor.body installs '
+                'the start-up burst limiter for exactly its first ten rounds.',
+    functions=['billiard.common.restart_state.step', 'restart_state.__init__', 'billiard.pool.Pool._repopulate_pool', 'Pool._maintain_pool',
+               'ResultHandler on_ack', 'Supervisor.body', 'TimeoutHandler._timed_out (clock kernel lemma)'],
+    bounds={'quick': '(a) unbounded history (inductive), reals; (b) 4 steps, 1<=maxR<=3; (c) pool of 2, budget 1..2, 3 events (exit with status in {-9,0,1,155} / '
+                     'clock advance / job acceptance)', 'thorough': '(b) 6 steps, maxR<=4; (c) 5 events'},
+    outside=['floating-point rounding of instants', 'monotonic()==0 (T falsy): Linux CLOCK_MONOTONIC is time since boot',
+             'max_restarts=None (no budget is configured: Pool.__init__ passes the raw argument to restart_state)'],
+    assumptions=['time is an integer tick count inside CrossHair; the real-valued kernel is what the inductive lemma proves',
+                 'monotonic() > 0 and non-decreasing'] + POOL_ASSUME,
+    trusted_base=TRUST + ['vlib/smt.py AST->SMT interpreter (fails loudly outside its grammar)', 'cvc5 1.0.3 (cross-check)'],
+    obligations=[
+        smt('I-restart', 'vlib.smtlemmas', 'i_restart', 'inductive step of restart_state.step vs the ghost-history oracle over the reals (unbounded histories)'),
+        smt('L-clock', 'vlib.smtlemmas', 'l_clock', '_timed_out(start, timeout) <=> both set and now >= start+timeout, over the reals (pays for the integer-time cut)'),
+        ch('restart-bounded', 'harness.c11', 'h_restart', 'real step() vs ghost-history oracle, symbolic times/budget/window/acks',
+           timeout=(150, 1200), quick_only=True),
+        twin('restart-bounded', 'harness.c11', 'h_restart_twin', 'a run in which RestartFreqExceeded is raised exists', quick_only=True),
+        ch('pool-side', 'harness.c11', 'h_pool_side', 'limiter consulted once per abnormal exit, never for clean/recycle, before the fork; raise prevents the fork; '
+           'acceptance resets the count', timeout=(300, 1500)),
+        twin('pool-side', 'harness.c11', 'h_pool_side_twin', 'a run in which the budget is exceeded exists'),
+        ch('startup-burst', 'harness.c11', 'h_burst', 'Supervisor.body: restart_state(10*processes, 1) for exactly the first ten rounds, then the configured limiter',
+           timeout=(200, 900), nontrivial_witness=True),
+    ] + parts(ch('restart-bounded-t', 'harness.c11', 'h_restart', 'same, 6 steps, split on the first three ack flags',
+                 timeout=(150, 1500), thorough_only=True), 8)
+      + parts(twin('restart-bounded-t', 'harness.c11', 'h_restart_twin', 'a raising run exists in this part', thorough_only=True), 8),
+)
 
 SPECS['C04'] = dict(
     level='other',
@@ -289,9 +318,9 @@ SPECS['C13'] = dict(
                 'variable up to 2**31+5 (abstract buffer) to cross the 16384-byte concatenation threshold and the framing limit.',
     functions=['billiard.connection._ConnectionBase.send_bytes', 'recv_bytes', 'recv_bytes_into', '_check_closed/_check_readable/_check_writable',
                '_bad_message_length', 'poll', 'Connection._send', 'Connection._recv', 'Connection._send_bytes', 'Connection._recv_bytes'],
-    bounds={'quick': 'payload <= 3 bytes (two messages on the receive side), every fragmentation, one EINTR at a symbolic call, cut at every '
+    bounds={'quick': 'payload <= 3 bytes (two messages on the receive side), every read/write moves one byte or as much as possible, one EINTR at a symbolic call, cut at every '
                      'position; threshold tier: 0 <= n <= 2**31+5 with three symbolic partial writes',
-            'thorough': 'payload <= 5 bytes'},
+            'thorough': 'payload <= 5 bytes, every fragmentation'},
     outside=['the kernel (real pipes/sockets), wait()/poll readiness', 'payload contents other than a fixed pattern (the code never inspects them)',
              'pickling in send()/recv()'],
     assumptions=['os.write accepts between 1 and len(buf) bytes or raises EINTR; os.read returns between 1 and min(wanted, available) bytes, '
@@ -299,14 +328,14 @@ SPECS['C13'] = dict(
                  '(validated against struct on boundary values every run)'],
     trusted_base=TRUST,
     obligations=[
-        ch('send', 'harness.c13', 'h_send', 'bytes accepted by the kernel == header + payload[offset:offset+size], nothing else; invalid '
-           'offset/size rejected before any I/O', timeout=(300, 1500)),
-        twin('send', 'harness.c13', 'h_send_twin', 'a run with split writes and an EINTR retry exists'),
-        ch('recv', 'harness.c13', 'h_recv', 'each message returned exactly, in order; clean EOF only at a boundary; a truncated message raises '
-           'and is never delivered', timeout=(300, 1500)),
-        twin('recv', 'harness.c13', 'h_recv_twin', 'a run delivering both messages over >= 5 reads exists'),
-        ch('limits', 'harness.c13', 'h_limits', 'maxlength never exceeded, connection unreadable/closed afterwards; BufferTooShort carries the whole '
-           'message and leaves the buffer untouched; offsets validated before I/O', timeout=(300, 1500), nontrivial_witness=True),
+    ] + tiered(lambda: ch('send', 'harness.c13', 'h_send', 'bytes accepted by the kernel == header + payload[offset:offset+size], nothing else; invalid '
+                          'offset/size rejected before any I/O', timeout=(300, 1500), nontrivial_witness=True), 8, 12) + tiered(
+        lambda: ch('recv', 'harness.c13', 'h_recv', 'each message returned exactly, in order; clean EOF only at a boundary; a truncated message raises '
+                   'and is never delivered', timeout=(300, 1500), nontrivial_witness=True), 12, 30) + tiered(
+        lambda: ch('limits', 'harness.c13', 'h_limits', 'maxlength never exceeded, connection unreadable/closed afterwards; BufferTooShort carries the whole '
+                   'message and leaves the buffer untouched; offsets validated before I/O', timeout=(300, 1500), nontrivial_witness=True), 8, 12) + [
+        ch('send-reach', 'harness.c13', 'h_send_twin', 'a run with split writes and an EINTR retry exists', timeout=(120, 600), expect='refuted', env={'VERIF_PART': '7', 'VERIF_NPART': '8'}, quick_only=True),
+        ch('recv-reach', 'harness.c13', 'h_recv_twin', 'a run delivering both messages over >= 5 reads exists', timeout=(120, 600), expect='refuted', env={'VERIF_PART': '11', 'VERIF_NPART': '12'}, quick_only=True),
         ch('state', 'harness.c13', 'h_state', 'closed or wrong-direction handles rejected before any I/O', timeout=(120, 600), nontrivial_witness=True),
         ch('threshold', 'harness.c13', 'h_threshold', 'symbolic length across 16384 and 2**31-1: header+payload exactly once, struct.error beyond the limit',
            timeout=(120, 600)),
@@ -325,9 +354,9 @@ SPECS['C14'] = dict(
                 'the arithmetic cut (L-roundup) on the current source, cross-checked with cvc5.',
     functions=['billiard.heap.Heap.__init__', 'Heap.malloc', 'Heap.free', 'Heap._malloc', 'Heap._free', 'Heap._absorb', 'Heap._free_pending_blocks',
                'Heap._roundup (SMT lemma)', 'BufferWrapper.__init__', 'BufferWrapper.create_memoryview'],
-    bounds={'quick': 'one arena of <= 8 units of 8 bytes cut into 3 blocks (all 5 live/free patterns without adjacent free blocks), optionally a '
-                     'second arena 16|24 free|24; page size scaled to 64; request 0..100 bytes; GC free at call 0..4 of _malloc/_free/_absorb',
-            'thorough': '<= 10 units'},
+    bounds={'quick': 'one arena of <= 5 units of 8 bytes cut into 3 blocks (all 5 live/free patterns without adjacent free blocks); page size scaled to 64; '
+                     'request 0..48 bytes; a GC free at call 1..3 of _malloc/_free/_absorb, or a block already on the pending list',
+            'thorough': '<= 9 units, requests <= 100, optionally a second arena 16|24 free|24'},
     outside=['mmap contents and real page size (scaled: sizes are realised by hashing of dict keys)', 'true multi-threaded timing beyond '
              'the lock-held flag and the re-entrant GC free', 'pre-states with more than 3 blocks per arena (reached only through the bounded histories)'],
     assumptions=['Arena replaced by a record (size, serial, bytearray)', 'Heap._roundup replaced by ((n+a-1)//a)*a inside CrossHair, justified by L-roundup',
@@ -335,12 +364,12 @@ SPECS['C14'] = dict(
     trusted_base=TRUST + ['cvc5 1.0.3 binary (cross-check of the lemma)'],
     obligations=(
         [smt('L-roundup', 'vlib.smtlemmas', 'l_roundup', 'for a in {8,64,4096,65536}, all 0<=n<2**63: (n+mask)&~mask == ((n+a-1)//a)*a, >= n, < n+a, multiple of a')]
-        + parts(ch('malloc-step', 'harness.c14', 'h_malloc', 'one malloc from any valid state: invariant kept; block >= size, 8-aligned, inside its arena, '
-                   'not previously live; no new arena if a free extent fits; GC free inside is deferred', timeout=(300, 1500)), 10)
-        + parts(twin('malloc-step', 'harness.c14', 'h_malloc_twin', 'a run with a GC free inside malloc exists'), 10)
-        + parts(ch('free-step', 'harness.c14', 'h_free', 'one free from any valid state: invariant kept; merged with both free neighbours; with the '
-                   'lock held it is only deferred and the next operation absorbs it', timeout=(300, 1500)), 10)
-        + parts(twin('free-step', 'harness.c14', 'h_free_twin', 'a run with the lock already held exists'), 10)
+        + tiered(lambda: ch('malloc-step', 'harness.c14', 'h_malloc', 'one malloc from any valid state: invariant kept; block >= size, 8-aligned, inside its arena; '
+                            'no new arena if a free extent fits; GC free inside is deferred', timeout=(300, 1500)), 5, 10)
+        + tiered(lambda: twin('malloc-step', 'harness.c14', 'h_malloc_twin', 'a run with a GC free inside malloc exists'), 5, 10)
+        + tiered(lambda: ch('free-step', 'harness.c14', 'h_free', 'one free from any valid state: invariant kept; merged with both free neighbours; with the '
+                            'lock held it is only deferred and the next operation absorbs it', timeout=(300, 1500)), 5, 10)
+        + tiered(lambda: twin('free-step', 'harness.c14', 'h_free_twin', 'a run with the lock already held exists'), 5, 10)
         + [ch('histories', 'harness.c14', 'h_history', 'malloc,malloc,free,malloc,free from the empty heap with symbolic sizes: invariant, no overlap, '
               'sizes honoured (reachability evidence for the invariant)', timeout=(300, 1500), nontrivial_witness=True),
            ch('buffer-wrapper', 'harness.c14', 'h_wrapper', 'two live BufferWrappers: size <= block, view inside the block, disjoint storage, writes do not leak',
@@ -407,8 +436,9 @@ SPECS['C18'] = dict(
                 'and Client) over in-memory message pairs with symbolic keys, symbolic challenge bytes and symbolic hostile replies at each '
                 'step; hmac.new is a stand-in injective on (zero-padding-normalised key, message).',
     functions=['billiard.connection.deliver_challenge', 'answer_challenge', 'Listener.__init__ (key type)', 'Listener.accept', 'Client'],
-    bounds={'quick': 'keys of 1..2 bytes, 2 symbolic challenge bytes (+18 fixed), hostile replies <= 6 / verdicts <= 10 bytes',
-            'thorough': 'keys of 1..3 bytes'},
+    bounds={'quick': 'keys of 1..2 bytes over {NUL, j, k}; equal or different challenges per direction; hostile replies: empty, one byte, the digest with '
+                     'its last byte replaced, the digest plus a byte (byte from {right, right^1, right+1, 0, 255}); verdicts: #WELCOME# with one byte replaced likewise, truncated, extended',
+            'thorough': 'same'},
     outside=['cryptographic strength of HMAC-MD5 (collision-freedom is assumed)', 'keys longer than the HMAC block size (hashed first)',
              'sockets; AuthenticationString pickling guard (process.py)'],
     assumptions=['hmac.new(key, msg).digest() is injective on (key without trailing NUL bytes, msg) - HMAC pads short keys with zeros',
@@ -467,17 +497,17 @@ SPECS['C02'] = dict(
                 'handler runs are solver variables; the oracle is the sequential map. z3 proves the chunk-tiling arithmetic for c<=64, n<=64.',
     functions=['billiard.pool.Pool._map_async', 'Pool._get_tasks', 'mapstar', 'starmapstar', 'MapResult.__init__/_set/_ack', 'IMapIterator._set/_set_length/next',
                'IMapUnorderedIterator._set', 'TaskHandler.body (set_length)', 'ApplyResult.get', 'billiard.einfo.ExceptionInfo/ExceptionWithTraceback/rebuild_exc'],
-    bounds={'quick': 'n <= 4 items, chunk size 0(None)..3, pool of 1..2, any subset of raising positions, 6 symbolic scheduling events then run to completion',
-            'thorough': 'n <= 6, chunk <= 7, 8 events'},
+    bounds={'quick': 'n <= 3 items, chunk size 0(None)..2, pool of 1..2, at most one raising position, 2 symbolic scheduling events then run to completion',
+            'thorough': 'n <= 5, chunk <= 6, any subset of raising positions, 5 events'},
     outside=['"arguments and results unchanged up to pickling" for arbitrary objects (pickle is C; payloads are tagged tuples)', 'imap with chunksize > 1 '
              '(flattening generator)', 'pool sizes above 2'],
     assumptions=POOL_ASSUME + ['result payloads cross the fake pipe through pickle.loads(pickle.dumps(.))'],
     trusted_base=TRUST + ['pickle (C)'],
     obligations=(
         [smt('L-chunking', 'harness.c02', 'l_chunking', 'slices tile [0,n); slice count n//c+bool(n%c); defaulted chunk size >= 1')]
-        + parts(ch('sequential', 'harness.c02', 'h_seq', 'result == sequential map (values, order / multiset, exception type+args with remote traceback, '
-                   'imap error at the failing position then the rest)', timeout=(400, 1800)), 10)
-        + parts(twin('sequential', 'harness.c02', 'h_seq_twin', 'the job runs to completion'), 10)
+        + tiered(lambda: ch('sequential', 'harness.c02', 'h_seq', 'result == sequential map (values, order / multiset, exception type+args with remote '
+                            'traceback, imap error at the failing position then the rest)', timeout=(400, 1800)), 20, 30)
+        + tiered(lambda: twin('sequential', 'harness.c02', 'h_seq_twin', 'the job runs to completion'), 20, 30)
     ),
 )
 
@@ -499,4 +529,80 @@ SPECS['C07'] = dict(
         parts(ch('close-join', 'harness.c07', 'h_close_join', 'close() then join(): drains, refuses late jobs, sentinels, no hang, workers gone, no 30 s guard', timeout=(400, 1800)), 8)
         + parts(twin('close-join', 'harness.c07', 'h_close_join_twin', 'join() returns in some run'), 8)
     ),
+)
+
+SPECS['C08'] = dict(
+    level='other',
+    explanation='Solver-based: worker side - CrossHair runs the real Worker.__call__/workloop/_do_exit with the real termination-signal handler '
+                '(common._shutdown_cleanup) delivered at a symbolic crash point: any statement boundary of the work loop or any stub call (idle in '
+                'the queue poll, sending ACK/READY, inside task code, inside the task\'s own exception handler, in the exit path); parent side - '
+                'the real Pool.terminate/_terminate_pool/_help_stuff_finish and the Finalize wrapper on a pool with queued and running jobs of '
+                'every kind at a symbolic stage of progress, with budgeted blocking stubs (exhausting a budget = hang); terminate_job through '
+                'the C01 event machine.',
+    functions=WORKER_FUNCS + ['billiard.pool.Pool.terminate', 'Pool._terminate_pool', 'Pool._help_stuff_finish', 'Pool._set_result_sentinel',
+                              'ResultHandler.finish_at_shutdown', 'Pool.terminate_job', 'ApplyResult._set_terminated', 'util.Finalize.__call__'],
+    bounds={'quick': 'worker: 2 tasks, crash point 0..72, any hooked signal number; parent: pool of 1..2, 3 apply jobs or a 3-part map/imap/imap_unordered, '
+                     '3 events of progress before terminate()', 'thorough': 'worker: 3 tasks; parent: 4 events'},
+    outside=['real thread shutdown and garbage-collection timing', 'task code that catches and discards SystemExit', 'a worker that cannot run Python '
+             'signal handlers (blocked in C code)'],
+    assumptions=POOL_ASSUME + WORKER_ASSUME + ['parent side: a worker that was sent TERM exits (that is exactly what the worker-side obligations establish)'],
+    trusted_base=TRUST,
+    obligations=(
+        [smt('instrumentation-valid', 'harness.c03', 'v_instrumentation', 'instrumented workloop == original on concrete scripts', kind='validate')]
+        + _term
+        + parts(ch('terminate', 'harness.c07', 'h_terminate', 'terminate() returns within the stub budgets, no worker alive afterwards, results delivered '
+                   'before the call unchanged, queues closed, second terminate() and the finalizer are no-ops', timeout=(400, 1800)), 8)
+        + parts(twin('terminate', 'harness.c07', 'h_terminate_twin', 'a run terminating busy workers exists'), 8)
+        + parts(ch('terminate-job', 'harness.c01', 'h_term', 'terminate_job on a busy worker: Terminated for exactly its job', timeout=(300, 1500)), 6)
+    ),
+)
+
+SPECS['C16'] = dict(
+    level='other',
+    technique='bounded symbolic execution (CrossHair) of the feeder and timeout paths + z3 BMC of JoinableQueue compiled from source',
+    explanation='Solver-based: (a) CrossHair runs the real Queue._feed to completion over a scripted buffer (symbolic length, sentinel position and '
+                'position of a broken pipe): pickles sent in buffer order, each once, under the write lock, writer closed at the sentinel; '
+                '(b) CrossHair runs the real Queue.put/get timeout logic with a symbolic clock and symbolic answers of the capacity semaphore, '
+                'reader lock and poll: Full iff no capacity, Empty only when the lock, the deadline or poll(remaining) says so, capacity released '
+                'exactly once per item; (c) z3 model-checks JoinableQueue.put/task_done/join and Queue.get compiled from their current source '
+                '(with the compiled Condition of C17 inlined) over all interleavings of producers, feeder, consumer and joiner.',
+    functions=['billiard.queues.Queue._feed', 'Queue.put', 'Queue.get', 'JoinableQueue.put', 'JoinableQueue.task_done', 'JoinableQueue.join',
+               'billiard.synchronize.Condition.wait/notify_all (inlined)'],
+    bounds={'quick': '(a) <= 3 items; (b) timeout -1(None)..20, clock deltas 0..40; (c) capacity 1, 1 producer x 1 item || feeder || consumer (get, task_done[, one '
+                     'task_done too many]) || joiner, K = 35..48', 'thorough': '(a) <= 5 items; (c) 2 producers'},
+    outside=['item identity and per-producer order across the pipe (FIFO of whole messages is C13\'s guarantee; buffer order is (a))',
+             'item sizes larger than the pipe buffer; unpickled equality of arbitrary objects', 'SimpleQueue (a locked pipe: its two lock-wrapped '
+             'calls are not modelled separately)', 'more producers/consumers than listed'],
+    assumptions=['the pipe delivers whole messages in order (C13)', 'the feeder thread of (c) is the two-step model "take from buffer, write to pipe" whose '
+                 'real code is checked in (a)', 'semaphore model of C17'],
+    trusted_base=TRUST + ['vlib/py2ts.py translator', 'pickle (C)'],
+    obligations=[
+        ch('feed', 'harness.c16', 'h_feed', 'real Queue._feed over a scripted buffer', timeout=(200, 900), nontrivial_witness=True),
+        ch('put', 'harness.c16', 'h_put', 'Full iff the capacity semaphore is not granted; item buffered iff granted', timeout=(120, 600), nontrivial_witness=True),
+        ch('get', 'harness.c16', 'h_get', 'Empty only when the reader lock, the deadline or poll(remaining time) says so; capacity released once per item; '
+           'reader lock always released', timeout=(300, 1500), nontrivial_witness=True),
+        smt('joinable-1', 'harness.c16', 'ob_jq_1', 'capacity never exceeded; join returns only after every earlier put was matched; everybody finishes; counters restored',
+            timeout=(900, 3000), replay_function='replay_jq'),
+        smt('joinable-overcount', 'harness.c16', 'ob_jq_1_overcount', 'task_done beyond the count raises ValueError', timeout=(900, 3000), replay_function='replay_jq'),
+        smt('joinable-2', 'harness.c16', 'ob_jq_2', 'same with two producers', timeout=(3000, 7000), replay_function='replay_jq', thorough_only=True),
+    ],
+)
+
+SPECS['C20'] = dict(
+    level='other',
+    explanation='Solver-based: CrossHair runs the real SyncManager / Server / BaseProxy code over an in-process transport registered through '
+                'managers.listener_client (one client send+recv = one turn of the real Server.handle_request / serve_client on the same thread, '
+                'messages deep-copied in transit) through a symbolic history of proxy operations (method calls with symbolic arguments, proxy '
+                'copies as pickling makes them, proxy drops, a client with a wrong key) and compares every result and exception with a local '
+                'twin object, the server refcount with the number of live proxies, and the referent lifetime with the last release.',
+    functions=['billiard.managers.BaseManager.get_server/_create', 'Server.handle_request', 'Server.serve_client', 'Server.create', 'Server.incref', 'Server.decref',
+               'Server.number_of_objects', 'BaseProxy.__init__/_connect/_callmethod/_incref/_decref/_getvalue', 'RebuildProxy', 'dispatch', 'convert_to_error'],
+    bounds={'quick': 'one list or dict referent, 2 steps from {method call (3 methods, argument 0..2), copy a proxy, drop a proxy, wrong-key client}', 'thorough': '3 steps'},
+    outside=['sockets and one-thread-per-client atomicity (rests on the GIL)', 'real finaliser timing', 'the other registered types (Namespace, Value, Array, '
+             'Lock, Queue ...: same dispatch path, different referents)', 'the challenge-response itself (C18)'],
+    assumptions=['deliver_challenge/answer_challenge replaced by key comparison', 'proxies are released explicitly (their finaliser callback is invoked)'],
+    trusted_base=TRUST,
+    obligations=parts(ch('proxy-history', 'harness.c20', 'h_history', 'proxied calls == local twin (values and exception types), state equal, refcount == live proxies, '
+                         'referent kept while proxies exist and disposed after the last, unexposed method refused, wrong key refused', timeout=(400, 1800),
+                         nontrivial_witness=True), 12),
 )
